@@ -144,7 +144,9 @@ class KrylovBased:
         )
         if self.E_shift is not None:
             if isinstance(self.H, OrthogonalNpcLinearOperator):
-                self.H.orig_operator = ShiftNpcLinearOperator(self.H.orig_operator, self.E_shift)
+                # don't modify the `H` passed as argument (copies: the ortho_vecs get normalized in place)
+                H_shift = ShiftNpcLinearOperator(self.H.orig_operator, self.E_shift)
+                self.H = OrthogonalNpcLinearOperator(H_shift, [o.copy() for o in self.H.ortho_vecs])
             else:
                 self.H = ShiftNpcLinearOperator(self.H, self.E_shift)
         self._cache = []
